@@ -356,7 +356,19 @@ def inline_generator_loops(stmts, lookup):
     stmts = bind_generator_locals(stmts, gi)
     stmts = lower_any_guard(stmts, gi)
     stmts = lower_next(stmts, gi.is_generator_call)
-    return gi.rec(stmts)
+    stmts = gi.rec(stmts)
+    if gi.bound:
+        # a bound generator local still read somewhere (not the iterable of a loop that was run in place): the generator is created
+        # there, from the argument locals
+        class _Rebuild(ast.NodeTransformer):
+            def visit_Name(self, node):
+                if isinstance(node.ctx, ast.Load) and node.id in gi.bound:
+                    m, skip, binds = gi.bound[node.id]
+                    fn_ = ast.Attribute(value=ast.Name(id="self", ctx=ast.Load()), attr=m.name, ctx=ast.Load()) if skip else ast.Name(id=m.name, ctx=ast.Load())
+                    return ast.fix_missing_locations(ast.copy_location(ast.Call(func=fn_, args=[], keywords=[ast.keyword(arg=p_, value=copy.deepcopy(v_)) for p_, v_ in binds.items()]), node))
+                return node
+        stmts = [_Rebuild().visit(s_) for s_ in stmts]
+    return stmts
 
 
 # ---------------------------------------------------------------------------------------------------------------------
